@@ -85,6 +85,9 @@ structure Durable where
   the transaction that called it commits. -/
   seq : Nat := 0
   dirs : List Dir := []
+  /-- ids whose directory exists WITHOUT its `fs` subdirectory: only between the two `Mkdir` of
+  restore (crash point `restore.mkdir`). -/
+  nofs : List Nat := []
 deriving Repr, Inhabited
 
 structure State extends Durable where
@@ -147,8 +150,10 @@ inductive Step where
   | rmdir (d : Dir)
   /-- `o.fs.Check(upperPath(id), labels)`. -/
   | fsCheck (id : Nat) (ok : Bool)
-  /-- restore: `os.Mkdir(snapshots/<id>)` and `os.Mkdir(snapshots/<id>/fs)`, both tolerate EEXIST. -/
+  /-- restore: `os.Mkdir(snapshots/<id>)`, tolerates EEXIST. -/
   | mkdirId (id : Nat)
+  /-- restore: `os.Mkdir(snapshots/<id>/fs)`, tolerates EEXIST. -/
+  | mkdirFs (id : Nat)
   /-- `o.ms.Close()`. -/
   | dbClose
   /-- the process dies and a new one starts with `cfg` and a fresh backend. -/
@@ -191,9 +196,15 @@ def applyStep (s : State) : Step → State
     match d with
     | .id n => { s with mounts := s.mounts.filter (fun m => m != n) }
     | .temp _ => s
-  | .rmdir d => { s with dirs := s.dirs.filter (fun x => x != d) }
+  | .rmdir d =>
+    { s with dirs := s.dirs.filter (fun x => x != d),
+             nofs := match d with
+               | .id n => s.nofs.filter (fun m => m != n)
+               | .temp _ => s.nofs }
   | .fsCheck _ _ => s
-  | .mkdirId id => if Dir.id id ∈ s.dirs then s else { s with dirs := s.dirs ++ [Dir.id id] }
+  | .mkdirId id =>
+    if Dir.id id ∈ s.dirs then s else { s with dirs := s.dirs ++ [Dir.id id], nofs := id :: s.nofs }
+  | .mkdirFs id => { s with nofs := s.nofs.filter (fun m => m != id) }
   | .dbClose => { s with closed := true }
   | .crash cfg => { s with mounts := [], cfg := cfg, closed := true }
   | .opened => { s with closed := false }
@@ -261,7 +272,7 @@ def createChecks (s : State) (key parent : String) : Except Err (List Snap) :=
 /-- `os.Stat(upperPath(ParentIDs[0]))` fails. -/
 def parentDirMissing (s : State) : List Snap → Bool
   | [] => false
-  | p :: _ => !s.dirs.contains (.id p.id)
+  | p :: _ => !s.dirs.contains (.id p.id) || s.nofs.contains p.id
 
 /-- `createSnapshot`: steps, and on success the new record with its parent ids (nearest first). -/
 def createPlan (s : State) (orc : Oracle) (kind : Kind) (key parent : String) (labels : Labels) :
@@ -273,7 +284,9 @@ def createPlan (s : State) (orc : Oracle) (kind : Kind) (key parent : String) (l
     if parentDirMissing s ps then
       (.mkTemp t :: .marker "create.tempdir" :: .marker "create.txcreate" :: cleanupDir orc (.temp t),
        .error .other)
-    -- os.Rename onto an existing (non-empty) directory fails; both td and path are reclaimed
+    -- os.Rename onto an existing (non-empty) directory fails; both td and path are reclaimed.
+    -- (A directory without `fs` is empty and would be replaced, but such directories belong to
+    -- committed remote snapshots, whose ids are below the sequence: they never collide.)
     else if s.dirs.contains (.id (s.seq + 1)) then
       (.mkTemp t :: .marker "create.tempdir" :: .marker "create.txcreate" ::
          (cleanupDir orc (.temp t) ++ cleanupDir orc (.id (s.seq + 1))), .error .other)
@@ -341,7 +354,7 @@ def commitPlan (s : State) (name key : String) (labels : Labels) : List Step × 
   match findKey s.snaps key with
   | none => ([], .err .notfound)
   | some sn =>
-    if !s.dirs.contains (.id sn.id) then ([], .err .other)          -- fs.DiskUsage(upperPath(id))
+    if !s.dirs.contains (.id sn.id) || s.nofs.contains sn.id then ([], .err .other)  -- fs.DiskUsage(upperPath(id))
     else if name = "" then ([], .err .other)                         -- bolt: bucket name required
     else if hasKey s.snaps name then ([], .err .exists)
     else if sn.kind != .active then ([], .err .failedPrecondition)
@@ -386,12 +399,12 @@ def restoreSteps (allow : Bool) (orc : Oracle) : List Snap → List Step × Bool
   | [] => ([], true)
   | sn :: rest =>
     if orc.mountOk sn.id then
-      (.mkdirId sn.id :: .marker "restore.mkdir" :: .fsMount sn.id sn.labels true ::
+      (.mkdirId sn.id :: .marker "restore.mkdir" :: .mkdirFs sn.id :: .fsMount sn.id sn.labels true ::
          .marker "restore.mounted" :: (restoreSteps allow orc rest).1, (restoreSteps allow orc rest).2)
     else if allow then
-      (.mkdirId sn.id :: .marker "restore.mkdir" :: .fsMount sn.id sn.labels false ::
+      (.mkdirId sn.id :: .marker "restore.mkdir" :: .mkdirFs sn.id :: .fsMount sn.id sn.labels false ::
          (restoreSteps allow orc rest).1, (restoreSteps allow orc rest).2)
-    else ([.mkdirId sn.id, .marker "restore.mkdir", .fsMount sn.id sn.labels false], false)
+    else ([.mkdirId sn.id, .marker "restore.mkdir", .mkdirFs sn.id, .fsMount sn.id sn.labels false], false)
 
 /-- process (re)start on the durable image: `NewSnapshotter`. -/
 def restartPlan (s : State) (orc : Oracle) (cfg : Config) : List Step × Res :=
